@@ -392,6 +392,15 @@ func (c *c12Ctx) public(k *c12Key) signature.PublicKey {
 		ev["A"] = c.ptRaw(p)
 	}
 	c.t.Emit(ev)
+	if !pk && len(c.keys) > 0 {
+		// caller-side action (no event): a second reply of Public() is overwritten with another key's encoding. The key
+		// object handed out is the caller's; the signer and the first reply must not notice (every later Sign / Verify /
+		// Bytes of this key is judged against the key pair as generated).
+		c12Do(func() {
+			p2 := k.priv.Public()
+			p2.SetBytes(c.keys[0].pub.Bytes())
+		})
+	}
 	return p
 }
 
